@@ -14,7 +14,8 @@ EXPLANATION = (
     "inner box, insertion, final filter), and an excluded outer box is skipped before it can suppress; (R14.4) the "
     "result is the `bbox` reference of the surviving candidates (subset of the input; lifetime witness in the thorough "
     "tier); (R14.5) cloning a box never carries its vertex cache (intersection relies on recomputing the polygon from "
-    "the current fields).")
+    "the current fields). "
+    "(R14.7) the covered fraction rests on the intersection clauses shared with C08 (pre-filter wiring with both radii, clip of polygons of both boxes, fresh clones).")
 NOT_DECIDED = ["maximality / independence / idempotence for concrete geometry", "exactness of the intersection area (C08, N/A)"]
 ASSUMPTIONS = ["itertools::sorted_by is a stable sort by the comparator", "rustc nightly MIR construction"]
 NMS = 'utils::nms::nms'
@@ -22,6 +23,12 @@ NMS = 'utils::nms::nms'
 
 def run(ctx):
     _ownership(ctx)
+    from props import C20, C08
+    ctx.rule('R14.7', 'the covered fraction rests on a sound intersection: pre-filter wiring, clip of both boxes (shared with C08)')
+    n7 = C20.r4(ctx, 'R14.7', ('too_far',))
+    n7 += C08.radius_rule(ctx, 'R14.7')
+    n7 += C08.intersection_rule(ctx, 'R14.7')
+    ctx.floor('R14.7', n7, 12)
     F = ctx.F
     b = ctx.anchor('R14.1', NMS)
     if b is None:
